@@ -244,10 +244,18 @@ pub fn mutate(gs: &mut GenStream, ch: &mut dyn Chooser, class: u64, fi: usize) -
                 let n = n.min(all.len() - off.min(all.len()));
                 let vals = all[off.min(all.len())..(off + n).min(all.len())].to_vec();
                 off += n;
-                // keep parameters harmless: escape width wide enough / small rice values
+                // keep the size bounded: escapes get a wide field and clamped values, Rice
+                // partitions a parameter large enough for their values
+                let kmax: u32 = if r.method & 1 == 0 { 14 } else { 30 };
+                let maxzz = vals.iter().map(|v| if *v < 0 { (((-(*v + 1)) as u64) << 1) | 1 } else { (*v as u64) << 1 }).max().unwrap_or(0);
+                let mut k = param as u32;
+                while k < kmax && (maxzz >> k) > MAX_UNARY {
+                    k += 1;
+                }
                 let (param, escape) = match esc {
-                    Some(_) => (param, Some(31u8.min(33))),
-                    None => (param, None),
+                    Some(_) => (param, Some(31u8)),
+                    None if (maxzz >> k) > MAX_UNARY => (if r.method & 1 == 0 { 15 } else { 31 }, Some(31u8)),
+                    None => (k as u8, None),
                 };
                 let vals = if escape.is_some() { vals.iter().map(|v| (*v).clamp(-(1 << 29), 1 << 29)).collect() } else { vals };
                 parts.push(PartIR { param, escape, values: vals });
@@ -271,9 +279,10 @@ pub fn mutate(gs: &mut GenStream, ch: &mut dyn Chooser, class: u64, fi: usize) -
             let s = ir.subs.iter_mut().find(|s| matches!(s.body, SubBody::Fixed { .. } | SubBody::Lpc { .. }))?;
             let r = first_res(s)?;
             let p = r.parts.iter_mut().find(|p| p.escape.is_none() && !p.values.is_empty())?;
-            p.param = 0;
-            let k = 8 + ch.below(13) as u32;
-            p.values[0] = 1i64 << k;
+            // unary part of the first value becomes 2^(k+1) zero bits; the other values keep
+            // their parameter so the frame stays small
+            let k = 8 + ch.below(9) as u32;
+            p.values[0] = 1i64 << (k + p.param as u32).min(50);
             m("huge-unary-run", false)
         }
         26 => {
